@@ -373,11 +373,18 @@ def gen_config(rng, **force):
     # groundwater
     gw = force["gw"] if "gw" in force else rng.random() < 0.2
     if gw:
-        if rng.random() < 0.6:
+        r_gw = rng.random()
+        if r_gw < 0.4:
             cfg["gw"] = {"water_table": "Y", "method": "Constant", "dates": [cfg["start"]], "values": [rng.choice([0.4, 0.9, 1.5, 2.66, 5.0, 30.0])]}
+        elif r_gw < 0.6:
+            # step-wise table: several observations held constant in between (sorted by date)
+            n = rng.randint(2, 4)
+            ds = sorted({(start + pd.Timedelta(days=rng.randint(0, max(1, (end - start).days)))).strftime("%Y/%m/%d") for _ in range(n)} | {cfg["start"]})
+            cfg["gw"] = {"water_table": "Y", "method": "Constant", "dates": ds, "values": [rng.choice([0.5, 0.8, 1.2, 2.0, 3.0]) for _ in ds]}
         else:
             n = rng.randint(2, 5)
-            ds = sorted({(start + pd.Timedelta(days=rng.randint(0, (end - start).days))).strftime("%Y/%m/%d") for _ in range(n)} | {cfg["start"]})
+            # observations inside the window and, sometimes, before the start / after the end
+            ds = sorted({(start + pd.Timedelta(days=rng.randint(-150 if rng.random() < 0.4 else 0, (end - start).days + (200 if rng.random() < 0.4 else 0)))).strftime("%Y/%m/%d") for _ in range(n)} | {cfg["start"]})
             cfg["gw"] = {"water_table": "Y", "method": "Variable", "dates": ds, "values": [rng.choice([0.5, 1.0, 2.0, 3.5]) for _ in ds]}
     else:
         cfg["gw"] = None
